@@ -626,9 +626,13 @@ def _c06_jobs(tier):
     q = tier == "quick"
     dl = 70 if q else 840
     jobs = []
-    def j(script, qlen, loop, maxlen, bound):
-        jobs.append(("c06_queue", ["--script", script, "--qlen", qlen, "--loop", loop, "--maxlen", maxlen, "--bound", bound, "--deadline", dl]))
+    def j(script, qlen, loop, maxlen, bound, pre=0):
+        jobs.append(("c06_queue", ["--script", script, "--qlen", qlen, "--loop", loop, "--maxlen", maxlen, "--bound", bound, "--deadline", dl]
+                     + (["--preattach", 1] if pre else [])))
     k = 3 if q else 4
+    # the queue source first lives on an event loop of the application (both watchers there), then is attached to the consumer's
+    j("fiir", 1, 1, 0, k, pre=1)
+    j("fiFir", 2, 1, 0, 2 if q else 3, pre=1)
     for script in ("fiir", "fiiir", "fiFir", "fiixir", "fillir"):
         for qlen in (1, 2):
             j(script, qlen, 1, 0, k)
